@@ -641,13 +641,10 @@ impl Runner {
     /// mirror of the model's guard: does this flush execute a known-defect site?
     fn known_site(&self, f: &FlushEv) -> Option<String> {
         for (t, ids) in &f.merged {
-            if t.starts_with("_meta_columns_") {
-                if self.restarts > 0 && !self.cat_touched.contains(t) {
-                    return Some("F3".into());
-                }
-                continue;
-            }
-            if t.starts_with("_meta_tables") {
+            // catalogue tables hold only non-NULL strings: the F1 site cannot occur in them.  (Until
+            // 647a26b a recompacted, restored _meta_columns_* table was the site of finding F3; it
+            // is no longer mirrored: a recurrence shows as a content mismatch.)
+            if t.starts_with("_meta_columns_") || t.starts_with("_meta_tables") {
                 continue;
             }
             // row ranges of the merged partitions: from the layout before the step and from this flush
@@ -977,16 +974,7 @@ impl Runner {
                 }
             }
             "flush" => {
-                // a flush that never returns cannot report its events: with factor 0 every table is
-                // recompacted, so the known-defect site F3 is predictable beforehand
-                if self.opt("combine", 4) == 0 && self.restarts > 0 {
-                    let untouched = self.created.iter().any(|t| !self.cat_touched.contains(&format!("_meta_columns_{}", t)));
-                    if untouched {
-                        self.predicted_site = Some("F3".into());
-                    }
-                }
                 self.req(lst(vec![a("flush")]), "flush")?;
-                self.predicted_site = None;
             }
             "evict" => {
                 self.req(lst(vec![a("evict")]), "evict")?;
@@ -1071,7 +1059,6 @@ pub fn model_cfg(opts: &[Sx], guard: bool) -> Sx {
         lst(vec![a("factor"), Sx::int(g("combine", 4))]),
         lst(vec![a("max_files"), Sx::int(g("max_wal_files", 1000))]),
         lst(vec![a("max_bytes"), Sx::int(g("max_wal_size", 64 * 1024 * 1024))]),
-        lst(vec![a("seed"), a("faithful")]),
     ])
 }
 
